@@ -42,6 +42,8 @@ def _run(names, extra, tier, tree):
         d = os.path.join(V, "seeded", name)
         meta = json.load(open(os.path.join(d, "meta.json")))
         props = [meta["property"]] + [p for p in extra if p != meta["property"]]
+        if meta.get("obsolete"):
+            print(f"{name:28s} obsolete (no longer a defect): skipped"); continue
         r = sh(["git", "-C", tree, "apply", os.path.join(d, "patch.diff")])
         if r.returncode != 0:
             print(name, "PATCH DOES NOT APPLY:", r.stdout[:300]); continue
@@ -53,7 +55,7 @@ def _run(names, extra, tier, tree):
                 lines = [l for l in c.stdout.splitlines() if l.startswith(("VIOLATION", "KNOWN-FINDING"))]
                 res[p] = dict(exit=c.returncode, seconds=round(time.time() - t0, 1), lines=lines[:6])
                 print(f"{name:28s} {p} exit={c.returncode} {'DETECTED' if c.returncode == 1 and lines else 'missed'} "
-                      f"{'no-failing-input-found' if lines and all('no-failing-input-found' in l for l in lines if l.startswith('VIOLATION')) else ''} ({res[p]['seconds']} s)")
+                      f"{'no-failing-input-found' if c.returncode == 1 and lines and all('no-failing-input-found' in l for l in lines if l.startswith('VIOLATION')) else ''} ({res[p]['seconds']} s)")
         finally:
             sh(["git", "-C", tree, "checkout", "--", "."])
         json.dump(dict(tier=tier, results=res), open(os.path.join(d, "result.json"), "w"), indent=1)
